@@ -1,3 +1,4 @@
 import GbVerif.Props.C13
+import GbVerif.Props.C15
 import GbVerif.Props.C17
 import GbVerif.Props.C19
